@@ -59,6 +59,7 @@ fn sweep_model(i: usize) -> ModelGame {
 pub fn case(ctx: &Ctx, kind: &str, params: &Value, counting: bool) -> Result<(), Fail> {
 	let m = match kind {
 		"sweep" => sweep_model(params["i"].as_u64().unwrap_or(0) as usize),
+		"large" => large_model(params["i"].as_u64().unwrap_or(0) as usize),
 		"fixture" => match fixture_model(&dna_param(params)) {
 			Some((_, m)) => m,
 			None => return Ok(()),
@@ -94,6 +95,14 @@ pub fn run(ctx: &Ctx) -> usize {
 	let cfg = cfg_for(ctx);
 	let cases = ctx.n(60_000, 3_000_000);
 	if run_dna(ctx, "dna", cases, dna_max(ctx), |dna, counting| check_model(ctx, &model_from_dna(dna, &cfg), counting)).is_some() {
+		violations += 1;
+	}
+	if run_enum(ctx, "large", LARGE_CASES, |i| json!({ "i": i }), |i| {
+		ctx.class("large_game");
+		check_model(ctx, &large_model(i), true)
+	})
+	.is_some()
+	{
 		violations += 1;
 	}
 	if fixture_count() > 0 {
